@@ -1,17 +1,27 @@
 #!/bin/bash
-# usage: mkclone.sh <name>  — a working clone of /verif under /tmp/vf/<name>/verif that shares /verif's fact cache, analysis tools and scratch copy
-# (so that several people/agents can edit rules independently; pipeline runs are serialised by the cache lock).
+# usage: mkclone.sh <name> [own]  — a working clone of /verif under /tmp/vf/<name>/verif.
+#  default: shares /verif's fact cache, analysis tools and scratch copy (pipeline runs are serialised by the cache lock);
+#  "own":   shares only the analysis tools; own fact cache (warm copy of target-nightly) and own scratch copy, so pipeline runs of several clones go in parallel.
 N=$1; D=/tmp/vf/$N
 rm -rf $D; mkdir -p $D
 git clone -q /verif $D/verif
-ln -s /verif/cache $D/verif/cache
 ln -s /verif/tools/mechfacts/target $D/verif/tools/mechfacts/target
 ln -s /verif/tools/mechsyn/target $D/verif/tools/mechsyn/target
 find $D/verif/tools/mechfacts $D/verif/tools/mechsyn -type f \( -name "*.rs" -o -name "Cargo.toml" \) -exec touch -d "2020-01-01" {} +   # never rebuild the shared tools from a clone
 printf "cache\ntools/*/target\n" >> $D/verif/.git/info/exclude
-SCR=/tmp/mechverif-scratch-$(python3 -c "import hashlib;print(hashlib.sha256(b'/verif').hexdigest()[:8])")
-cat > $D/env.sh <<EOF
+if [ "$2" = own ]; then
+  mkdir -p $D/cache; cp -a /verif/cache/target-nightly $D/cache/target-nightly
+  cat > $D/env.sh <<EOF
+export MECH_CACHE=$D/cache
+export MECH_SCRATCH=$D/scratch
+export VERIF_CLONE=$D/verif
+EOF
+else
+  ln -s /verif/cache $D/verif/cache
+  SCR=/tmp/mechverif-scratch-$(python3 -c "import hashlib;print(hashlib.sha256(b'/verif').hexdigest()[:8])")
+  cat > $D/env.sh <<EOF
 export MECH_SCRATCH=$SCR
 export VERIF_CLONE=$D/verif
 EOF
+fi
 echo $D/verif
